@@ -9,7 +9,8 @@ THEOREMS = ["C02_stream_ends_with_finish_partial", "C02_codec_roundtrip_linear",
             "C02_codec_roundtrip_segno_once", "C02_codec_roundtrip_loops_nobreak_partial",
             "C02_convert_structured_eq", "C02_codec_roundtrip_loops", "C02_codec_roundtrip_track",
             "C02_stream_at_offset_partial", "C02_call_return_partial", "C02_double_break_fixed",
-            "C02_track_at_offset_partial", "C02_track_shapes_convert", "C02_song_roundtrip_partial"]
+            "C02_track_at_offset_partial", "C02_track_shapes_convert", "C02_drum_call_return_partial",
+            "C02_drum_routine_at_offset_partial", "C02_song_roundtrip_partial"]
 LEVEL = "proof"
 STREAM = "conv.events+conv.seq"
 CHUNK = 100
@@ -17,20 +18,28 @@ TECHNIQUE = "Lean 4 theorems over the converter model (codec register invariant,
 LEVEL_TEXT = ("see DESIGN §6 C02 and the theorem list in lean/Ctrmml/Properties/C02.lean. Three layers, all machine-checked. (1) Codec: convert_track (real model) followed by the spec "
               "interpreter Seq.run gives back the tick string for every single track over the linear fragment (all durations 0..65535, all adjacencies, 128-tick splitting, length "
               "disambiguation) with nested counted loops with ANY NUMBER of breaks per loop (only the first is emitted: D23 fix), subroutine calls (annotated with what the callee plays) "
-              "and a depth-0 loop point + loop-back jump, at any offset of a chunk, in the three shapes end_hook produces (FINISH / SEGNO..JUMP / SEGNO..FINISH); convert_track is proved "
+              "and a depth-0 loop point + loop-back jump, at any offset of a chunk, in the three shapes end_hook produces (FINISH / SEGNO..JUMP / SEGNO..FINISH), in either drum-flag state "
+              "(Codec.Mode: with the flag set a note byte calls its routine, which plays its commands and ends with DMFINISH = its note with the caller's length: C02_drum_call_return_partial, "
+              "C02_drum_routine_at_offset_partial) and with FLG commands that switch the flag at the top level of a track; convert_track is proved "
               "equal to a structured two-pass encoder in both directions (C02_convert_structured_eq and its converse for streams < 64 KiB). (2) Writer: MDSDRV_Track_Writer run over a "
-              "well-formed track of the plain fragment emits exactly the flat event list of its events (hidden hook calls inside repeated loop passes and calls change nothing), carried "
-              "through the mutually recursive get_subroutine by an invariant. (3) Whole songs: C02_song_roundtrip_partial — for every song of the plain fragment (no drum mode, platform "
-              "commands, macro tracks, pitch envelopes; front-end timing; called tracks without loop point; <= 1 loop point per channel; chunk < 64 KiB) and every channel track in "
+              "well-formed track of the fragment emits exactly the flat event list of its events (hidden hook calls inside repeated loop passes and calls change nothing; the writer's "
+              "drum-mode state follows the DRUM_MODE events in text order; a drum routine's writer stops at its first note with DMFINISH), carried "
+              "through the mutually recursive get_subroutine by an invariant. (3) Whole songs: C02_song_roundtrip_partial — for every song of the fragment (no platform "
+              "commands, macro tracks, pitch envelopes; front-end timing; called tracks without loop point and drum-mode switch; DRUM_MODE outside counted loops; every routine the "
+              "converter registered = commands without time and loops of them before its first note; the loop section ends in the drum-mode state it starts in; <= 1 loop point per "
+              "channel; chunk < 64 KiB) and every channel track in "
               "Timeline.inDomain, the interpreter started at the position the track table lists plays, after masking of index operands, exactly Timeline.expected (calls to any depth "
-              "through the pointer table, what is replayed after the loop-back jump). Outside the fragment (drum routines, platform commands, macro tracks, pitch envelopes, optimised "
-              "songs) the statement C02_full_statement is decided per case by the spec interpreter on the REAL bytes against Spec/Timeline; the judge marks the cases that are instances "
+              "through the pointer table in either drum-mode state, notes in drum mode through their routines, what is replayed after the loop-back jump). Outside the fragment "
+              "(platform commands, macro tracks, pitch envelopes, optimised songs, drum mode switched inside loops / by callees = D25) "
+              "the statement C02_full_statement is decided per case by the spec interpreter on the REAL bytes against Spec/Timeline; the judge marks the cases that are instances "
               "of the whole-song theorem (ok proved-fragment) and cross-checks the constructor model the theorem is stated over (MdsFile.construct) against the real bytes.")
 LEVEL_NOTE = ("Trusted: Lean kernel; Model/MdsCodec+MdsConv+MdsFile (byte-exact agreement with mdsdrv.cpp by differential testing); Spec/SeqInterp = my reconstruction of the MDSDRV "
               "sequence rules (driver source not in the repository); Spec/Timeline+Expand; instrument tables are inputs (C11 models them). Proved for all inputs: single tracks of the "
-              "codec fragment, and whole songs of the plain fragment (partial: extra hypotheses = chunk < 64 KiB, at most one loop point per channel track, called tracks without loop "
-              "point, no pitch envelope/macro track/drum mode/platform command, acceptance by the constructor). Still decided per case by the oracle: drum routines, platform commands, "
-              "macro tracks, pitch envelopes, optimised songs (D2), acceptance (that the converter accepts every encodable song). Known: D2, D24 (loop point in a called channel track).")
+              "codec fragment, and whole songs of the fragment, drum mode included (partial: extra hypotheses = chunk < 64 KiB, at most one loop point per channel track, called tracks "
+              "without loop point / drum-mode switch, drum-mode switches outside loops, routine tracks = timeless commands before the first note, loop section ending in the drum state it "
+              "starts in, no pitch envelope/macro track/platform command, acceptance by the constructor). Still decided per case by the oracle: platform commands, "
+              "macro tracks, pitch envelopes, optimised songs (D2), acceptance (that the converter accepts every encodable song). Known: D2, D24 (loop point in a called channel track), "
+              "D25 (drum mode decided in text order by the writer, in execution order by the driver).")
 RULE = ("IR songs in the encodable domain from the song grammar (1..4 channel tracks, subroutines, drum routines, loops with breaks, loop point at depth 0, commands, platform commands, "
         "instruments) + adjacency sweep: ordered triples over {explicit note, implicit-length note, tie, rest<128, rest>=128, rest=last rest, command, SEGNO, LP, LPB, LPF, PAT} x durations "
         "{1,2,127,128,129,256,65535}; non-trivial = has loop/call/segno/long duration; distinct by request text")
